@@ -550,8 +550,28 @@ def check_noop(world, res):
 
 
 def check_cut(spec, versions, world, fresh, anc, pre_snap):
-    """C08 invariant after a cut run."""
+    """C08 invariant after a cut run (+ C06: nothing downstream of the failed operation's node starts afterwards)."""
     msgs = []
+    if not world.dead:
+        log = world.log
+        for p, e in enumerate(log):
+            if e[0] == "FAULT" and e[1] in ("call", "write", "write.done", "read", "side", "side.done"):
+                i = e[2]
+                owners = {i}
+                if e[1].startswith("side"):
+                    owners = {j for j, nd in enumerate(spec) if i in targets(nd)}  # the producer call failed
+                if e[1] == "read":
+                    # a failed read-back only concerns what consumes the VALUE (argument consumers and whatever is
+                    # downstream of them); nodes that merely depend on i wait for its write only
+                    succ = successors(spec)
+                    first = {j for j, kind in succ[i] if kind == "a"}
+                    blocked = set(first) | {j for j in range(len(spec)) if anc[j] & first}
+                else:
+                    blocked = {j for j in range(len(spec)) if anc[j] & owners}
+                for q in range(p + 1, len(log)):
+                    if log[q][0] == "call" and log[q][1] in blocked:
+                        msgs.append(("C06", f"call {log[q][1]} was started although the {e[1]} of node {sorted(owners)} it depends on had raised"))
+                break
     stored_ref, _ = scratch(spec, versions, world.norm)
     post = world.snap
     for fr in {None, fresh}:
